@@ -26,10 +26,11 @@ def tla_set(xs):
 def write_mc_cfg(path, *, spec="Spec", deviations=(), net_kinds=(), net_budget=0, adv_kinds=(), adv_budget=0,
                  max_ord=2, fpcs=("match",), fpss=("none",), idcs=("certC",), idss=("certS",), deadline=False,
                  app=True, invariants=(), properties=(), emit="NoEmit", extra_inv=(), server_hvr=False, anti_replay=(),
-                 tick_slack=None):
+                 tick_slack=None, buffers=()):
     with open(path, "w") as f:
         f.write(f"""SPECIFICATION {spec}
 CONSTANTS
+  Buffers = {tla_set(buffers)}
   AntiReplay = {tla_set(anti_replay)}
   ServerHvr = {"TRUE" if server_hvr else "FALSE"}
   Deviations = {tla_set(deviations)}
@@ -147,6 +148,7 @@ def normalise(outcome):
     sc = outcome["scenario"]
     evs = outcome.get("events", [])
     out = [{"ev": "reset", "id": outcome["id"],
+            "model": {"refS": "S", "refC": "C"}.get(sc.get("peer"), ""),     # endpoint without hooks (the reference)
             "cfg": {"fpC": sc.get("fpC", "match"), "fpS": sc.get("fpS", "none"),
                     "idC": sc.get("idC", "certC"), "idS": sc.get("idS", "certS")}}]
     # what the proxy saw and did: original plaintext handshake messages and rewrites, per direction
@@ -179,6 +181,28 @@ def normalise(outcome):
     # everything after the harness's `end` marker is teardown (close_notify etc.)
     end_seq = min([e["seq"] for e in evs if e.get("comp") == "net" and e["ev"] == "end"] or [1 << 62])
     dtls = [e for e in evs if e.get("comp") == "dtls" and e["seq"] < end_seq]
+    peer = sc.get("peer")
+    if peer in ("refS", "refC"):
+        # the reference endpoint has no hooks: what the proxy delivered to it stands for its receive events
+        ref_inst, to_ref = ("S", "C>S") if peer == "refS" else ("C", "S>C")
+        n_deliv = {}
+        for e in evs:
+            if e.get("comp") != "net" or e["seq"] >= end_seq or e.get("dir") != to_ref or e["ev"] not in ("tx", "release"):
+                continue
+            for r in e.get("recs", []):
+                if r["ct"] == 22 and r["ep"] == 0:
+                    msgs = [(h["t"], h["ms"], h["off"], h["fl"], h["tot"]) for h in r.get("hs", [])]
+                elif r["ct"] == 22:
+                    msgs = [("FIN", -1, 0, 1, 1)]
+                else:
+                    msgs = []
+                for (t, ms, off, fl, tot) in msgs:
+                    for _ in range(2 if e.get("dup") else 1):
+                        key = (t, ms, off, fl)
+                        n_deliv[key] = n_deliv.get(key, 0) + 1
+                        dtls.append({"comp": "dtls", "inst": ref_inst, "ev": "hs_model", "seq": e["seq"], "t": t, "ms": ms,
+                                     "off": off, "flen": fl, "total": tot, "again": n_deliv[key] > 1})
+        dtls.sort(key=lambda x: x["seq"])
     last_snap = {}
     i = 0
     while i < len(dtls):
@@ -186,7 +210,13 @@ def normalise(outcome):
         inst = e["inst"]
         ev = e["ev"]
         d_in = "S>C" if inst == "C" else "C>S"
-        if ev == "hs":
+        if ev == "hs_model":
+            lo, hi = (0, 6) if e["flen"] == e["total"] else (_unit(e["off"], e["total"]), _unit(e["off"] + e["flen"], e["total"]))
+            out.append({"ev": "hs", "inst": inst, "t": e["t"], "ms": max(e["ms"], 0), "oms": e["ms"], "disp": "model",
+                        "lo": lo, "hi": hi, "bad": False, "rw": "", "inj": "",
+                        # rustrtc's retransmissions renumber plaintext records, the protected Finished keeps its number
+                        "same": bool(e["again"] and e["t"] == "FIN"), "seq": e["seq"]})
+        elif ev == "hs":
             disp = e["disp"]
             if disp == "resync":
                 i += 1
@@ -233,7 +263,7 @@ def normalise(outcome):
                 inj, rw = rw, ""
                 bad = disp == "acc"      # bytes of the adversary's own making (the model marks them the same way)
             out.append({"ev": "hs", "inst": inst, "t": t, "ms": ms, "oms": oms, "disp": disp, "lo": lo, "hi": hi,
-                        "bad": bad, "rw": rw, "inj": inj, "seq": e["seq"]})
+                        "bad": bad, "rw": rw, "inj": inj, "same": False, "seq": e["seq"]})
         elif ev == "flight":
             out.append({"ev": "flight", "inst": inst, "msgs": list(e["msgs"]),
                         "why": "timer" if e["why"] == "timer" else "answer", "seq": e["seq"]})
@@ -266,11 +296,12 @@ def normalise(outcome):
 
 # ------------------------------------------------------------------------------------------- trace validation
 
-def write_trace_cfg(path, deviations, props, server_hvr=False):
+def write_trace_cfg(path, deviations, props, server_hvr=False, anti_replay=(), buffers=()):
     with open(path, "w") as f:
         f.write(f"""SPECIFICATION TraceSpec
 CONSTANTS
-  AntiReplay = {{}}
+  Buffers = {tla_set(buffers)}
+  AntiReplay = {tla_set(anti_replay)}
   ServerHvr = {"TRUE" if server_hvr else "FALSE"}
   Deviations = {tla_set(deviations)}
   Lax = TRUE
@@ -281,9 +312,9 @@ CHECK_DEADLOCK FALSE
 """)
 
 
-def _tlc_trace(ck, trace_path, deviations, props, tag):
+def _tlc_trace(ck, trace_path, deviations, props, tag, **cfgkw):
     cfg = os.path.join(vlib.SPEC, f"Trace_DtlsHandshake_{tag}_{os.getpid()}.gen.cfg")
-    write_trace_cfg(cfg, deviations, props)
+    write_trace_cfg(cfg, deviations, props, **cfgkw)
     try:
         res = vlib.tlc("Trace_DtlsHandshake", os.path.basename(cfg), workers=1, timeout=900, seed_arg=False,
                        tag=f"trace_{tag}", heap="4g",
@@ -309,7 +340,7 @@ def _tlc_trace(ck, trace_path, deviations, props, tag):
     return verdict, res
 
 
-def validate_traces(ck, outcomes, deviations, tag, props=None, max_rejections=6):
+def validate_traces(ck, outcomes, deviations, tag, props=None, max_rejections=6, **cfgkw):
     """Validate the normalised traces of all outcomes. Returns (n_accepted, rejections, tlc_results) where a
     rejection is {id, index, event, rule, events_before}. The rule is found by switching rule tags off."""
     props = list(props or ALL_RULES)
@@ -332,7 +363,7 @@ def validate_traces(ck, outcomes, deviations, tag, props=None, max_rejections=6)
                 rows.append(e)
                 owner.append(sid)
         vlib.write_ndjson(path, rows)
-        (verdict, idx), res = _tlc_trace(ck, path, deviations, props, tag)
+        (verdict, idx), res = _tlc_trace(ck, path, deviations, props, tag, **cfgkw)
         results.append(res)
         if verdict == "accepted":
             accepted += len(todo)
@@ -352,7 +383,7 @@ def validate_traces(ck, outcomes, deviations, tag, props=None, max_rejections=6)
             single = os.path.join(ck.dir, f"trace_{tag}_one.ndjson")
             vlib.write_ndjson(single, evs)
             for tagname in props:
-                (v2, i2), _ = _tlc_trace(ck, single, deviations, [p for p in props if p != tagname], tag + "_r")
+                (v2, i2), _ = _tlc_trace(ck, single, deviations, [p for p in props if p != tagname], tag + "_r", **cfgkw)
                 if v2 == "accepted" or (i2 is not None and i2 - 1 > local):
                     rule = tagname
                     break
